@@ -670,18 +670,6 @@ Qed.
 (* ================================================================== *)
 (* E. prepare_workflow: ordering and watch list *)
 
-Definition field_trees (f : field) : list node :=
-  match f with FExpr ast => [ast] | _ => [] end.
-
-Definition fe_trees (f : fe_field) : list node :=
-  match f with FEExpr ast _ => [ast] | _ => [] end.
-
-(* the compiled expressions of a step: refSwitch.switchOn, skipIf, forEach.itemIn, inputs, state *)
-Definition step_trees (st : step_spec) : list node :=
-  (match st_switch st with Some sw => field_trees (sw_on sw) | None => [] end) ++
-  field_trees (st_skip_if st) ++ fe_trees (st_for_each st) ++
-  field_trees (st_inputs st) ++ field_trees (st_state st).
-
 Lemma fold_max_ok : forall l a, fold_left oc_max l a = COk -> a = COk /\ Forall (fun c => c = COk) l.
 Proof.
   induction l as [|c r IH]; intros a H; cbn in H.
